@@ -11,7 +11,8 @@ from harness.util import vec, stack, guarded, first_failures
 
 ID = 'C03'
 LEVEL = 'proof'
-PROPERTY_MODULES = ['PanqecVerif.Properties.C03', 'PanqecVerif.Properties.C03Rank']
+PROPERTY_MODULES = ['PanqecVerif.Properties.C03', 'PanqecVerif.Properties.C03Rank',
+                    'PanqecVerif.Properties.C03BSparse']
 LEVEL_TEXT = ('Lean theorems for every vector length, every vector and every dtype path of bs_prod '
               '(uint8 wrap at any overlap, wide integers, csr): result = GF(2) symplectic form; symmetric, '
               'alternating, bilinear; syndrome linear; string/BSF/integer/weight converters mutually inverse. '
